@@ -29,7 +29,7 @@ func init() {
 			}
 			return ""
 		},
-		Budget: schedBudget(90*time.Second, 25*time.Minute),
+		Budget: schedBudget(120*time.Second, 25*time.Minute),
 	})
 }
 
